@@ -176,6 +176,22 @@ def expand_ellipsis(call):
     return re.sub(r" +", " ", desc).replace("( ", "(").replace(" )", ")").replace(" ,", ",").strip(), sizes
 
 
+def rank_consistent_counts(tensors, shapes, sizes):
+    """number of ellipsis repetition assignments (0..4 per class) that are consistent with the RANKS of the given tensors and with tuple-valued sizes
+    (axis values play no role: einx resolves repetitions before lengths)"""
+    ells, cls, key = R.ellipsis_classes(tensors)
+    classes = sorted(set(cls)); n = 0
+    for combo in itertools.product(range(5), repeat=len(classes)):
+        counts = {id(e): combo[classes.index(cls[i])] for i, e in enumerate(ells)}
+        if any(sh is not None and R.width(t, counts) != len(sh) for t, sh in zip(tensors, shapes)): continue
+        ok = True
+        for name, v in sizes.items():
+            if isinstance(v, tuple):
+                if any(counts[id(e)] != len(v) for i, e in enumerate(ells) if name in key[i]): ok = False
+        n += ok
+    return n
+
+
 def outcome(f):
     import einx
     try:
@@ -221,6 +237,7 @@ def work(chunk):
                 except Exception:
                     hist["skip-args"] += 1; continue
                 sizes_l = dict(cl.sizes)
+                if rule == "anonymous-ellipsis": sizes_l.pop("zz", None)      # the anonymous form cannot be given a size either
                 if extra and isinstance(extra, dict):
                     for k in extra.get("force_sizes", []): sizes_l[k] = base.env[k]
                 kw_l = dict(cl.kw); kw_l.update({k: v for k, v in base.kw.items() if k == "keepdims"})
@@ -251,6 +268,12 @@ def work(chunk):
                         if ex is None: hist["skip-expand"] += 1; continue
                         desc_s = desc_l
                         desc_x, sizes_x2 = ex
+                        try:
+                            ins_, outs_ = R.parse(desc_s)
+                            if rank_consistent_counts(ins_ + outs_, list(cl.shapes) + [None] * len(outs_), sizes_l) != 1:
+                                hist["skip-expand"] += 1; continue       # the repetition count does not follow from the ranks: the written-out text says more than the ellipsis
+                        except Exception:
+                            hist["skip-expand"] += 1; continue
                         if "[" in desc_s and "[" not in desc_x:
                             hist["skip-expand"] += 1; continue       # zero repetitions of the only bracket: the written-out text would switch to automatic bracketing
                         run_s = run_l
@@ -260,6 +283,12 @@ def work(chunk):
                         full = {k: v for k, v in (cl.env or {}).items() if k != "..."}
                         for szs, k, v in [(z, k, v) for z in (sizes_l, full) for k, v in z.items()]:
                             if isinstance(v, tuple) and len(v) >= 1 and len(set(v)) == 1:
+                                # the equivalence presupposes that the repetition count follows from the rest of the call (a scalar carries no count)
+                                try:
+                                    ins_, outs_ = R.parse(desc_s)
+                                    if rank_consistent_counts(ins_ + outs_, list(cl.shapes) + [None] * len(outs_), {**szs, k: v[0]}) != 1: hist["scalar-size-count-open"] += 1; continue
+                                except Exception:
+                                    hist["scalar-size-count-open"] += 1; continue
                                 o_t = outcome(lambda: getattr(einx, d.op)(desc_s, *[a.copy() for a in args], **szs, **kw_l, **bk))
                                 o_i = outcome(lambda: getattr(einx, d.op)(desc_s, *[a.copy() for a in args], **{**szs, k: v[0]}, **kw_l, **bk))
                                 hist["pairs"] += 1; hist["rule:scalar-size"] += 1
